@@ -243,7 +243,8 @@ def run_once(case, rewrite):
         a = attempt(lambda: np.unique(ra, axis=-1))
     elif op == "unique_counts":
         o = attempt(lambda: [np.unique(r, return_counts=True) for r in rows])
-        a = attempt(lambda: np.unique(ra, axis=-1, return_counts=True))
+        rc_ = [True, np.True_, 1, np.bool_(True)][(tot + n) % 4]       # any true value asks for the counts, as in numpy
+        a = attempt(lambda: np.unique(ra, axis=-1, return_counts=rc_))
     elif op == "diff":
         o = attempt(lambda: [np.diff(r, n=nn) for r in rows] + [np.diff(flat[:0], n=nn)][:0])
         a = attempt(lambda: np.diff(ra, n=as_n(nn, case.get("ntype")), axis=-1))
